@@ -85,6 +85,7 @@ def run(chk, repo, tier):
                         'all functions', floor=5)
     from sa import snapshot
     snapshot.run_rule(chk, O8, repo)
+    run_o9_o10(chk, repo)
 
     # ---------------------------------------------------------------- O1
     for acc in ('amounts', 'compartment_names', 'compartmental_matrix', 'zero_order_inputs'):
@@ -535,3 +536,93 @@ def run_o7(chk, O7, repo, only_modules=None):
                                               witness='the compartment has a non-default attribute set by the first call '
                                                       '(e.g. a lag time): the second setter is silently dropped, e.g. '
                                                       'bioavailability disappears from the system')
+
+
+def run_o9_o10(chk, repo):
+    from sa.cfg import CFG
+    O9 = chk.rule('O9', '_order_compartments adds a compartment to the ordering only under a not-yet-contained test (each '
+                        'compartment once)', floor=1)
+    O10 = chk.rule('O10', 'to_dict lists the compartments in graph order (from_dict rebuilds by insertion, and '
+                          'central_compartment / dosing order depend on insertion order)', floor=2)
+    m = repo.module('pharmpy.model.statements')
+    cs = m.classes.get('CompartmentalSystem')
+    f = cs.methods.get('_order_compartments')
+    if f is None:
+        raise AnalysisError('_order_compartments not found')
+    # the result list: the returned name that is grown in a loop
+    rets = [n.value.id for n in walk_no_nested(f.node) if isinstance(n, ast.Return) and isinstance(n.value, ast.Name)]
+    res = next((r for r in rets if any(isinstance(c, ast.Call) and isinstance(c.func, ast.Attribute)
+                                        and c.func.attr in ('append', 'extend') and unparse(c.func.value) == r
+                                        for c in ast.walk(f.node))), None)
+    loop_grow = []
+    cfg = CFG(f.node)
+    for nd in cfg.nodes.values():
+        if nd.kind != 'stmt' or not isinstance(nd.ast, (ast.Expr, ast.AugAssign)):
+            continue
+        for c in ast.walk(nd.ast):
+            if isinstance(c, ast.Call) and isinstance(c.func, ast.Attribute) and c.func.attr in ('append', 'extend', 'insert') \
+                    and unparse(c.func.value) == res:
+                loop_grow.append((nd, c))
+        if isinstance(nd.ast, ast.AugAssign) and unparse(nd.ast.target) == res:
+            loop_grow.append((nd, nd.ast))
+    if res is None or not loop_grow:
+        raise AnalysisError('O9: growth of the ordering list not recognised')
+    tests = [n for n in cfg.nodes.values() if n.kind == 'test']
+    for nd, c in loop_grow:
+        ok = False
+        if isinstance(c, ast.Call) and c.func.attr == 'append' and c.args:
+            x = unparse(c.args[0])
+            for t in tests:
+                e = t.ast
+                if isinstance(e, ast.Compare) and len(e.ops) == 1 and isinstance(e.ops[0], ast.NotIn) \
+                        and unparse(e.left) == x and unparse(e.comparators[0]) == res and cfg.edge_dominates(t.id, 'true', nd.id):
+                    ok = True
+        elif isinstance(c, ast.Call) and c.func.attr == 'extend' and c.args:
+            a = c.args[0]
+            src = a
+            if isinstance(a, ast.Name):
+                defs = [n.value for n in walk_no_nested(f.node) if isinstance(n, ast.Assign)
+                        and unparse(n.targets[0]) == a.id]
+                src = defs[-1] if len(defs) == 1 else None
+            if isinstance(src, (ast.ListComp, ast.GeneratorExp)) and any(
+                    isinstance(i_, ast.Compare) and isinstance(i_.ops[0], ast.NotIn) and unparse(i_.comparators[0]) == res
+                    for g_ in src.generators for i_ in g_.ifs):
+                ok = True
+        chk.instance(O9, f'_order_compartments: `{nd.text()[:60]}` only for compartments not yet in `{res}`: {ok}')
+        if not ok:
+            chk.violation(O9, m.rel, f.qualname, nd.text()[:80],
+                          f'compartments are added to `{res}` without testing that they are not there yet',
+                          line=nd.line,
+                          witness='a compartment upstream of the first dosing compartment (move the dose from DEPOT to CENTRAL): '
+                                  'CENTRAL and PERIPHERAL are listed twice, amounts/matrix/eqs get extra rows')
+    # O10
+    cc = cs.methods.get('central_compartment')
+    td = cs.methods.get('to_dict')
+    fd = cs.methods.get('from_dict')
+    if cc is None or td is None or fd is None:
+        raise AnalysisError('O10: central_compartment / to_dict / from_dict not found')
+    positional = any(isinstance(n, ast.Subscript) and isinstance(n.value, ast.Call) and dotted(n.value.func) == 'list'
+                     and any(isinstance(a, ast.Attribute) and a.attr in ('predecessors', 'successors')
+                             for a in ast.walk(n.value)) for n in ast.walk(cc.node))
+    chk.instance(O10, f'central_compartment picks a neighbour of output by position (insertion-order dependent): {positional}')
+    if not positional:
+        chk.instance(O10, 'central_compartment is order independent: rule not armed')
+        return
+    comps_src = [n.value for n in walk_no_nested(td.node) if isinstance(n, ast.Assign) and unparse(n.targets[0]) == 'comps']
+    if len(comps_src) != 1:
+        raise AnalysisError('O10: `comps` of to_dict not recognised')
+    src = comps_src[0]
+    graph_order = False
+    if isinstance(src, ast.ListComp) and unparse(src.generators[0].iter) in ('self._g.nodes', 'self._g', 'self._g.nodes()'):
+        graph_order = not src.generators[0].ifs
+    elif isinstance(src, ast.Call) and dotted(src.func) in ('list', 'tuple') and src.args \
+            and unparse(src.args[0]) in ('self._g.nodes', 'self._g', 'self._g.nodes()'):
+        graph_order = True
+    chk.instance(O10, f'to_dict: comps = {unparse(src)[:60]} (graph order: {graph_order})')
+    if not graph_order:
+        chk.violation(O10, m.rel, td.qualname, f'comps = {unparse(src)[:80]}',
+                      'the serialised compartment order is not the graph\'s insertion order; from_dict inserts in the '
+                      'serialised order, and central_compartment / dosing_compartments follow insertion order',
+                      line=src.lineno,
+                      witness='parent CENTRAL with two eliminated metabolites, then add_dose(METAB1, ...): from_dict(to_dict(cs)) '
+                              'picks another central compartment and is != cs')
